@@ -9,7 +9,6 @@ def NoInt {α : Type} (x : R α) : Prop := ∀ k, x ≠ .error (.internal k)
 
 theorem noInt_ok {α : Type} (a : α) : NoInt (.ok a : R α) := by intro k h; cases h
 theorem noInt_adm {α : Type} (k : AdmKind) : NoInt (.error (.adm k) : R α) := by intro k' h; cases h
-theorem noInt_unmodelled {α : Type} : NoInt (.error .unmodelled : R α) := by intro k' h; cases h
 theorem noInt_noOracle {α : Type} : NoInt (.error .noOracle : R α) := by intro k' h; cases h
 
 theorem noInt_bind {α β : Type} {x : R α} {f : α → R β} (hx : NoInt x) (hf : ∀ a, x = .ok a → NoInt (f a)) :
@@ -464,7 +463,10 @@ macro "nis" : tactic =>
 
 theorem validateElements_noInt (d : Doc) : NoInt (validateElements d) := by
   unfold validateElements
-  refine noInt_bind (forE_noInt ?_) (fun _ _ => forE_noInt ?_)
+  refine noInt_bind (forE_noInt ?_) (fun _ _ => noInt_bind (forE_noInt ?_) (fun _ _ => forE_noInt ?_))
+  · intro c _
+    refine forE_noInt (fun b _ => forE_noInt ?_)
+    intro co _; nis
   · intro s _; nis
   · intro t _; nis
 
@@ -590,11 +592,6 @@ theorem hoaParams_ok_nonempty {d : Doc} (h : validateHoaParams d = .ok ()) :
   rw [hnil] at this
   simp at this
 
-theorem validateNonMatrixPacks_noInt (d : Doc) : NoInt (validateNonMatrixPacks d) := by
-  unfold validateNonMatrixPacks
-  refine forE_noInt ?_
-  intro c _; nis
-
 theorem validateV2Refs_noInt (d : Doc) : NoInt (validateV2Refs d) := by
   unfold validateV2Refs; nis
 
@@ -604,48 +601,6 @@ theorem validateTrackOrChannel_noInt (d : Doc) : NoInt (validateTrackOrChannel d
   intro c _; nis
 
 /-- what a successful `validate_structure` establishes (the parts later steps rely on) -/
-structure StructOk (d : Doc) : Prop where
-  elements : validateElements d = .ok ()
-  chTypes : validatePackChannelTypes d = .ok ()
-  subTypes : validatePackSubpackTypes d = .ok ()
-  multitree : validateMultitree d = .ok ()
-  hoaCh : validateHoaChannels d = .ok ()
-  trackOrCh : validateTrackOrChannel d = .ok ()
-  hoaPar : validateHoaParams d = .ok ()
-
-theorem validateStructure_ok {d : Doc} (h : validateStructure d = .ok ()) : StructOk d := by
-  unfold validateStructure at h
-  obtain ⟨_, h1, h⟩ := bind_ok h
-  obtain ⟨_, h2, h⟩ := bind_ok h
-  obtain ⟨_, h3, h⟩ := bind_ok h
-  obtain ⟨_, h4, h⟩ := bind_ok h
-  obtain ⟨_, h5, h⟩ := bind_ok h
-  obtain ⟨_, h6, h⟩ := bind_ok h
-  obtain ⟨_, h7, h⟩ := bind_ok h
-  obtain ⟨_, h8, h⟩ := bind_ok h
-  obtain ⟨_, h9, h⟩ := bind_ok h
-  obtain ⟨_, h10, h⟩ := bind_ok h
-  obtain ⟨_, h11, h⟩ := bind_ok h
-  obtain ⟨_, h12, h⟩ := bind_ok h
-  exact ⟨h1, h4, h5, h6, h8, h, h10⟩
-
-/-- `validate_structure` raises only `AdmError` -/
-theorem validateStructure_noInt (d : Doc) : NoInt (validateStructure d) := by
-  unfold validateStructure
-  refine noInt_bind (validateElements_noInt d) fun _ _ => ?_
-  refine noInt_bind (validateObjectLoops_noInt d) fun _ _ => ?_
-  refine noInt_bind (validateObjectParams_noInt d) fun _ _ => ?_
-  refine noInt_bind (validatePackChannelTypes_noInt d) fun _ h4 => ?_
-  refine noInt_bind (validatePackSubpackTypes_noInt d) fun _ h5 => ?_
-  refine noInt_bind (validateMultitree_noInt d) fun _ _ => ?_
-  refine noInt_bind (validateObjectsChannels_noInt d) fun _ _ => ?_
-  refine noInt_bind (validateHoaChannels_noInt d) fun _ h8 => ?_
-  refine noInt_bind (validateHoaOrderDegree_noInt h4 h5 h8) fun _ _ => ?_
-  refine noInt_bind (validateHoaParams_noInt h4 h5 h8) fun _ _ => ?_
-  refine noInt_bind (validateNonMatrixPacks_noInt d) fun _ _ => ?_
-  refine noInt_bind (validateV2Refs_noInt d) fun _ _ => ?_
-  exact validateTrackOrChannel_noInt d
-
 theorem getD_mem {α : Type} {l : List α} {i : Nat} (x : α) (h : i < l.length) : l.getD i x ∈ l := by
   induction l generalizing i with
   | nil => cases h
@@ -666,60 +621,7 @@ theorem ws_obj_tracks {d : Doc} (h : d.wellScoped = true) :
     ∀ o ∈ d.objects, ∀ t ∈ o.tracks, optLt t d.trackUIDs.length = true := by
   intro o ho
   simp only [Doc.wellScoped, Bool.and_eq_true, List.all_eq_true] at h
-  exact (h.1.1.1.1.2 o ho).1.2
-
-theorem elements_tf {d : Doc} (h : validateElements d = .ok ()) :
-    ∀ t ∈ d.trackFormats, t.stream.isSome = true := by
-  unfold validateElements at h
-  obtain ⟨_, _, h2⟩ := bind_ok h
-  intro t ht
-  have := forE_ok h2 t ht
-  split at this
-  · cases this
-  · rename_i hn; simpa [Option.isSome_iff_ne_none] using hn
-
-theorem trackOrChannel_ok {d : Doc} (h : validateTrackOrChannel d = .ok ()) :
-    ∀ u ∈ d.trackUIDs, ¬(u.trackFormat.isNone = true ∧ u.channel.isNone = true) := by
-  intro u hu
-  have := forE_ok h u hu
-  split at this
-  · cases this
-  · rename_i hn; simpa using hn
-
-/-- in a validated, well-scoped document every audioTrackUID of the document has the references that
-`validate_selected_audioTrackUID` and `channel_format_for_track_uid` dereference -/
-theorem trackRefsOk_of_valid {d : Doc} (hw : d.wellScoped = true) (hs : StructOk d) {t : Nat}
-    (ht : t < d.trackUIDs.length) : TrackRefsOk d t := by
-  have hu : d.atu t ∈ d.trackUIDs := getD_mem default ht
-  unfold TrackRefsOk
-  split
-  · rename_i f hf
-    have hlt := ws_atu hw _ hu
-    rw [hf] at hlt
-    simp only [optLt, decide_eq_true_eq] at hlt
-    exact elements_tf hs.elements _ (getD_mem default hlt)
-  · rename_i hf
-    have := trackOrChannel_ok hs.trackOrCh _ hu
-    rw [hf] at this
-    cases hc : (d.atu t).channel with
-    | none => rw [hc] at this; simp at this
-    | some c => rfl
-
-theorem selectedOf_tracks_lt {d : Doc} (hw : d.wellScoped = true) (st : State) :
-    ∀ t ∈ (selectedOf d st).2.1, t < d.trackUIDs.length := by
-  intro t ht
-  unfold selectedOf at ht
-  split at ht
-  · rename_i path _
-    simp only [List.mem_filterMap, id] at ht
-    obtain ⟨a, ha, rfl⟩ := ht
-    rcases getD_mem_or d.objects (path.getLastD 0) default with hm | hd
-    · have := ws_obj_tracks hw _ hm (some t) ha
-      simpa [optLt] using this
-    · have hdef : d.obj (path.getLastD 0) = default := hd
-      rw [hdef] at ha
-      cases ha
-  · simpa using ht
+  exact (h.1.1.1.1.1.2 o ho).1.2
 
 theorem unpack1_noInt {α : Type} {l : List α} (h : l.length = 1) : NoInt (unpack1 l) := by
   cases l with
@@ -734,57 +636,6 @@ theorem packFormatPath_noInt {d : Doc} (hu : uniquePaths d = true) {p c : Nat} (
   refine unpack1_noInt ?_
   simp only [uniquePaths, List.all_eq_true, List.mem_range] at hu
   simpa using hu p hp c hc
-
-theorem renderingItems_noInt {d : Doc} (hs : StructOk d) (hu : uniquePaths d = true)
-    {p : Nat} (hp : p < d.packs.length) : NoInt (renderingItems d p) := by
-  unfold renderingItems
-  dsimp only
-  cases hT : (d.pack p).type with
-  | objects | directSpeakers =>
-    simp only
-    intro k hk
-    split at hk
-    · cases hk
-    · rename_i e he; injection hk with hk; subst hk
-      exact mapE_noInt (fun c hc => packFormatPath_noInt hu hp hc) k he
-  | hoa =>
-    simp only
-    intro k hk
-    split at hk
-    · rename_i e he; injection hk with hk; subst hk
-      refine mapE_noInt (l := packChannels d p) ?_ k he
-      intro c hc k' hk'
-      split at hk'
-      · cases hk'
-      · rename_i e' he'; injection hk' with hk'; subst hk'; exact packFormatPath_noInt hu hp hc k' he'
-    · rename_i ppc hppc
-      obtain ⟨hlen, hmem⟩ := mapE_ok_mem hppc
-      have hone : ∀ x ∈ ppc, (d.chan x.2).blocks.length = 1 := by
-        intro x hx
-        obtain ⟨c, hc, hfc⟩ := hmem x hx
-        have hx2 : x.2 = c := by
-          split at hfc
-          · injection hfc with hfc; rw [← hfc]
-          · cases hfc
-        simp only [packChannels, List.mem_map] at hc
-        obtain ⟨y, hy, hyc⟩ := hc
-        rw [hx2, ← hyc]
-        exact hoa_reachable_one_block hs.chTypes hs.subTypes hs.hoaCh hT y hy
-      have hnil : ppc ≠ [] := by
-        intro hnil
-        have hph : p ∈ hoaPacks d := by
-          unfold hoaPacks
-          exact List.mem_filter.mpr ⟨List.mem_range.mpr hp, by simp [hT]⟩
-        rw [hnil] at hlen
-        simp only [packChannels, List.length_map, List.length_nil] at hlen
-        exact hoaParams_ok_nonempty hs.hoaPar p hph (List.eq_nil_of_length_eq_zero hlen.symm)
-      split at hk
-      · rename_i e he; injection hk with hk; subst hk; exact hoaParams_noInt hone hnil k he
-      · cases ppc with
-        | nil => exact hnil rfl
-        | cons a t => simp only [first] at hk; cases hk
-  | matrix => exact noInt_adm _
-  | binaural => exact noInt_adm _
 
 theorem compLoop_noInt (d : Doc) (allSelected : List Nat) :
     ∀ rs : List Nat, (∀ r ∈ rs, ((r :: (d.obj r).comps).filter (fun o => allSelected.contains o)) ≠ []) →
@@ -847,72 +698,240 @@ theorem selectStates_noInt {d : Doc} {prog : Option Nat}
         · rename_i hlt; exact hlt (hp p rfl)
     · cases hk
 
-/-- allocator oracle returns packs of the document (`allocate_packs` only returns packs it was given) -/
-def OracleScoped (d : Doc) (oracle : Oracle) : Prop :=
-  ∀ i sols, oracle i = some sols → ∀ sol ∈ sols, ∀ p ∈ sol, p < d.packs.length
+/-! ### `_validate_pack_channel_multitree` accepts ⇒ every channel lies on exactly one pack path -/
 
-theorem processState_tracksOk {d : Doc} (hw : d.wellScoped = true) (hs : StructOk d) (st : State)
-    (hv : forE (selectedOf d st).2.1 (validateSelectedTrack d) = .ok ()) :
-    ∀ t ∈ (selectedOf d st).2.1, TrackOk d t := fun t ht =>
-  validateSelectedTrack_ok (forE_ok hv t ht) (trackRefsOk_of_valid hw hs (selectedOf_tracks_lt hw st t ht))
+/-- DFS preorder of the unfolding of the pack/channel graph that `mtDfs` walks (fuel as in `mtDfs`) -/
+def visit (d : Doc) : Nat → Node → List Node
+  | 0, _ => []
+  | f + 1, node => node :: (mtChildren d node).flatMap (visit d f)
 
-/-- `select_pack_mapping` + `_get_rendering_items` for one state raise only `AdmError` -/
-theorem processState_noInt {d : Doc} {oracle : Oracle} (hw : d.wellScoped = true) (hs : StructOk d)
-    (ho : OracleScoped d oracle) (hu : uniquePaths d = true) (i : Nat) (st : State) :
-    NoInt (processState d oracle i st) := by
-  have hlt := selectedOf_tracks_lt hw st
-  have hok := processState_tracksOk hw hs st
-  unfold processState
-  rcases hsel : selectedOf d st with ⟨packs, tracks, n⟩
-  rw [hsel] at hlt hok
-  simp only at hlt hok ⊢
-  have hrefs : ∀ t ∈ tracks, TrackRefsOk d t := fun t ht => trackRefsOk_of_valid hw hs (hlt t ht)
-  intro k hk
-  split at hk
-  · rename_i e he; injection hk with hk; subst hk
-    exact forE_noInt (fun t ht => validateSelectedTrack_noInt (hrefs t ht)) k he
-  · rename_i hv
-    have hto := hok hv
-    split at hk
-    · rename_i e he; injection hk with hk; subst hk
-      exact mapE_noInt (fun t ht => channelForTrack_noInt (hrefs t ht)) k he
-    · split at hk
-      · cases hk
-      · exact raiseError_noInt hto k hk
-      · rename_i sol hor
-        split at hk
-        · rename_i e he; injection hk with hk; subst hk
-          exact mapE_noInt (fun t ht => trackSpec_noInt (hto t ht)) k he
-        · refine sumE_noInt (l := sol) ?_ 0 k hk
-          intro _ p hp
-          exact renderingItems_noInt hs hu (ho i _ hor sol (by simp) p hp)
-      · exact raiseError_noInt hto k hk
+theorem mtDfs_fold_ok (d : Doc) (f : Nat) (path : List Node)
+    (ih : ∀ node seen s', mtDfs d f node seen path = .ok s' →
+      (visit d f node).Nodup ∧ (∀ x ∈ visit d f node, x ∉ seen) ∧
+      (∀ x, x ∈ s' ↔ x ∈ visit d f node ∨ x ∈ seen)) :
+    ∀ (cs : List Node) (s0 s' : List Node),
+      foldE cs s0 (fun s c => mtDfs d f c s path) = .ok s' →
+      (cs.flatMap (visit d f)).Nodup ∧ (∀ x ∈ cs.flatMap (visit d f), x ∉ s0) ∧
+      (∀ x, x ∈ s' ↔ x ∈ cs.flatMap (visit d f) ∨ x ∈ s0) := by
+  intro cs
+  induction cs with
+  | nil =>
+    intro s0 s' h
+    unfold foldE at h
+    injection h with h; subst h
+    simp
+  | cons c cs ihc =>
+    intro s0 s' h
+    unfold foldE at h
+    dsimp only at h
+    cases h1 : mtDfs d f c s0 path with
+    | error e => rw [h1] at h; cases h
+    | ok s1 =>
+      rw [h1] at h; simp only at h
+      obtain ⟨n1, d1, m1⟩ := ih c s0 s1 h1
+      obtain ⟨n2, d2, m2⟩ := ihc s1 s' h
+      refine ⟨?_, ?_, ?_⟩
+      · simp only [List.flatMap_cons]
+        refine List.nodup_append.mpr ⟨n1, n2, ?_⟩
+        intro a ha b hb hab
+        subst hab
+        exact d2 a hb ((m1 a).mpr (Or.inl ha))
+      · intro x hx
+        simp only [List.flatMap_cons, List.mem_append] at hx
+        rcases hx with hx | hx
+        · exact d1 x hx
+        · intro hs; exact d2 x hx ((m1 x).mpr (Or.inr hs))
+      · intro x
+        simp only [List.flatMap_cons, List.mem_append]
+        rw [m2 x, m1 x]
+        constructor
+        · rintro (h | h | h)
+          · exact Or.inl (Or.inr h)
+          · exact Or.inl (Or.inl h)
+          · exact Or.inr h
+        · rintro ((h | h) | h)
+          · exact Or.inr (Or.inl h)
+          · exact Or.inl h
+          · exact Or.inr (Or.inr h)
 
-theorem processState_conflicting_never_items {d : Doc} {oracle : Oracle} {i : Nat} {st : State}
-    (ho : oracle i = some []) : ∀ m, processState d oracle i st ≠ .ok m := by
-  intro m hk
-  unfold processState at hk
-  rcases hsel : selectedOf d st with ⟨packs, tracks, n⟩
-  rw [hsel] at hk
-  simp only [ho] at hk
-  split at hk
-  · cases hk
-  · split at hk
-    · cases hk
-    · exact raiseError_not_ok hk
+/-- a successful multitree DFS visited pairwise different nodes, none of them seen before -/
+theorem mtDfs_ok (d : Doc) : ∀ (f : Nat) (path : List Node) (node : Node) (seen s' : List Node),
+    mtDfs d f node seen path = .ok s' →
+      (visit d f node).Nodup ∧ (∀ x ∈ visit d f node, x ∉ seen) ∧
+      (∀ x, x ∈ s' ↔ x ∈ visit d f node ∨ x ∈ seen) := by
+  intro f
+  induction f with
+  | zero =>
+    intro path node seen s' h
+    unfold mtDfs at h
+    injection h with h; subst h
+    simp [visit]
+  | succ f ih =>
+    intro path node seen s' h
+    unfold mtDfs at h
+    split at h
+    · cases h
+    · split at h
+      · cases h
+      · rename_i _ hseen
+        have hns : node ∉ seen := by simpa using hseen
+        obtain ⟨n1, d1, m1⟩ := mtDfs_fold_ok d f (path ++ [node]) (ih (path ++ [node])) _ _ _ h
+        refine ⟨?_, ?_, ?_⟩
+        · simp only [visit]
+          refine List.nodup_cons.mpr ⟨?_, n1⟩
+          intro hmem
+          exact d1 node hmem (by simp)
+        · intro x hx
+          simp only [visit, List.mem_cons] at hx
+          rcases hx with rfl | hx
+          · exact hns
+          · intro hs; exact d1 x hx (by simp [hs])
+        · intro x
+          rw [m1 x]
+          simp only [visit, List.mem_cons]
+          constructor
+          · rintro (h | h | h)
+            · exact Or.inl (Or.inr h)
+            · exact Or.inl (Or.inl h)
+            · exact Or.inr h
+          · rintro ((h | h) | h)
+            · exact Or.inr (Or.inl h)
+            · exact Or.inl h
+            · exact Or.inr (Or.inr h)
 
-theorem processState_ambiguous_never_items {d : Doc} {oracle : Oracle} {i : Nat} {st : State}
-    {s1 s2 : List Nat} {rest : List (List Nat)}
-    (ho : oracle i = some (s1 :: s2 :: rest)) : ∀ m, processState d oracle i st ≠ .ok m := by
-  intro m hk
-  unfold processState at hk
-  rcases hsel : selectedOf d st with ⟨packs, tracks, n⟩
-  rw [hsel] at hk
-  simp only [ho] at hk
-  split at hk
-  · cases hk
-  · split at hk
-    · cases hk
-    · exact raiseError_not_ok hk
+/-- channels below `p`, path by path (what `pack_format_channels` yields), with explicit fuel -/
+def chansFrom (d : Doc) (f : Nat) (p : Nat) : List Nat :=
+  (pathsFrom (fun i => (d.pack i).packs) f p).flatMap (fun path => (d.pack (path.getLastD p)).channels)
+
+theorem getLastD_cons_ne_nil {α : Type} (a x y : α) (q : List α) (h : q ≠ []) :
+    (a :: q).getLastD x = q.getLastD y := by
+  cases q with
+  | nil => exact absurd rfl h
+  | cons b t => simp [List.getLastD]
+
+theorem flatMap_congr' {α β : Type} {l : List α} {f g : α → List β} (h : ∀ x ∈ l, f x = g x) :
+    l.flatMap f = l.flatMap g := by
+  induction l with
+  | nil => rfl
+  | cons a t ih =>
+    simp only [List.flatMap_cons]
+    rw [h a (by simp), ih (fun x hx => h x (by simp [hx]))]
+
+theorem chansFrom_zero (d : Doc) (p : Nat) : chansFrom d 0 p = (d.pack p).channels := by
+  simp [chansFrom, pathsFrom]
+
+theorem chansFrom_succ (d : Doc) (f p : Nat) :
+    chansFrom d (f + 1) p = (d.pack p).channels ++ (d.pack p).packs.flatMap (chansFrom d f) := by
+  simp only [chansFrom, pathsFrom, List.flatMap_cons, List.getLastD_cons, List.getLastD_nil]
+  congr 1
+  rw [List.flatMap_assoc]
+  refine flatMap_congr' ?_
+  intro c _
+  rw [List.flatMap_map]
+  refine flatMap_congr' ?_
+  intro q hq
+  have hne := pathsFrom_ne_nil _ f c q hq
+  rw [getLastD_cons_ne_nil p p c q hne]
+
+theorem packChannels_eq_chansFrom (d : Doc) (p : Nat) : packChannels d p = chansFrom d d.packs.length p := by
+  simp only [packChannels, packPathsChannels, packPaths, chansFrom, List.map_flatMap, List.map_map]
+  refine flatMap_congr' ?_
+  intro path _
+  simp [Function.comp_def]
+
+theorem count_chan_map (c : Nat) (l : List Nat) : List.count (Node.chan c) (l.map Node.chan) = List.count c l := by
+  induction l with
+  | nil => rfl
+  | cons a t ih =>
+    simp only [List.map_cons, List.count_cons, ih]
+    by_cases h : a = c
+    · subst h; simp
+    · have : Node.chan a ≠ Node.chan c := fun hh => h (by injection hh)
+      simp [h, this]
+
+theorem visit_chan (d : Doc) (f c : Nat) : visit d (f + 1) (.chan c) = [.chan c] := by
+  simp [visit, mtChildren]
+
+theorem sum_map_le {α : Type} (l : List α) (g h : α → Nat) (hle : ∀ x ∈ l, g x ≤ h x) :
+    (l.map g).sum ≤ (l.map h).sum := by
+  induction l with
+  | nil => simp
+  | cons a t ih =>
+    simp only [List.map_cons, List.sum_cons]
+    have h1 := hle a (by simp)
+    have h2 := ih (fun x hx => hle x (by simp [hx]))
+    omega
+
+theorem visit_succ (d : Doc) (f : Nat) (node : Node) :
+    visit d (f + 1) node = node :: (mtChildren d node).flatMap (visit d f) := rfl
+
+theorem count_visit_pack (d : Doc) (f p c : Nat) :
+    List.count (Node.chan c) (visit d (f + 2) (.pack p)) =
+      List.count c (d.pack p).channels +
+        ((d.pack p).packs.map (fun q => List.count (Node.chan c) (visit d (f + 1) (.pack q)))).sum := by
+  have hne : (Node.pack p == Node.chan c) = false := by simp
+  have h1 : (d.pack p).channels.flatMap (fun a => visit d (f + 1) (Node.chan a)) = (d.pack p).channels.map Node.chan := by
+    induction (d.pack p).channels with
+    | nil => rfl
+    | cons a t ih =>
+      rw [List.flatMap_cons, ih, visit_chan]; rfl
+  rw [visit_succ]
+  simp only [mtChildren, List.flatMap_append, List.flatMap_map, List.count_cons, List.count_append, hne]
+  rw [h1, count_chan_map, List.count_flatMap]
+  simp only [Function.comp_def, Bool.false_eq_true, if_false]
+  omega
+
+/-- each channel is visited by the DFS at least as often as `pack_format_channels` yields it -/
+theorem count_chansFrom_le (d : Doc) : ∀ f p c,
+    List.count c (chansFrom d f p) ≤ List.count (Node.chan c) (visit d (f + 2) (.pack p)) := by
+  intro f
+  induction f with
+  | zero =>
+    intro p c
+    rw [chansFrom_zero, count_visit_pack]
+    omega
+  | succ f ih =>
+    intro p c
+    rw [chansFrom_succ, count_visit_pack, List.count_append, List.count_flatMap]
+    have := sum_map_le (d.pack p).packs (List.count c ∘ chansFrom d f)
+      (fun q => List.count (Node.chan c) (visit d (f + 1 + 1) (.pack q))) (fun q _ => ih q c)
+    omega
+
+theorem filter_length_le_count {α : Type} (l : List α) (g : α → List Nat) (c : Nat) :
+    (l.filter (fun a => (g a).contains c)).length ≤ List.count c (l.flatMap g) := by
+  induction l with
+  | nil => simp
+  | cons a t ih =>
+    simp only [List.flatMap_cons, List.count_append, List.filter_cons]
+    split
+    · rename_i hc
+      have : 0 < List.count c (g a) := List.count_pos_iff.mpr (by simpa using hc)
+      simp only [List.length_cons]
+      omega
+    · omega
+
+/-- `MultitreeSound`, proved: if `_validate_pack_channel_multitree` accepts the document then under every
+pack each reachable channel is found on exactly one pack path (what `_get_pack_format_path` unpacks). -/
+theorem multitree_sound (d : Doc) (h : validateMultitree d = .ok ()) : uniquePaths d = true := by
+  simp only [uniquePaths, List.all_eq_true, List.mem_range, beq_iff_eq]
+  intro p hp c hc
+  -- the DFS from p succeeded
+  have hdfs := forE_ok h p (List.mem_range.mpr hp)
+  cases hm : mtDfs d (d.packs.length + 2) (.pack p) [] [] with
+  | error e => rw [hm] at hdfs; cases hdfs
+  | ok s' =>
+    obtain ⟨hnd, _, _⟩ := mtDfs_ok d _ _ _ _ _ hm
+    have hcnt : List.count c (packChannels d p) ≤ 1 := by
+      rw [packChannels_eq_chansFrom]
+      exact Nat.le_trans (count_chansFrom_le d _ p c) (List.nodup_iff_count.mp hnd _)
+    have hle := filter_length_le_count (packPaths d p) (fun path => (d.pack (path.getLastD p)).channels) c
+    have hpc : packChannels d p = (packPaths d p).flatMap (fun path => (d.pack (path.getLastD p)).channels) := by
+      rw [packChannels_eq_chansFrom]; rfl
+    rw [← hpc] at hle
+    have hpos : 0 < ((packPaths d p).filter (fun path => (d.pack (path.getLastD p)).channels.contains c)).length := by
+      rw [hpc] at hc
+      obtain ⟨path, hpath, hcm⟩ := List.mem_flatMap.mp hc
+      exact List.length_pos_of_mem (List.mem_filter.mpr ⟨hpath, by simpa using hcm⟩)
+    omega
 
 end Earverif.Validate
